@@ -478,6 +478,7 @@ def song_cases(rng, tier):
     bodies = [s for _, s in songs]
     for i in range(n):
         s = rng.choice(bodies)
+        s0 = s
         others = [o for o in bodies if o is not s]
         tags = []
         for _ in range(rng.choice([1, 1, 1, 2, 3])):
@@ -485,6 +486,10 @@ def song_cases(rng, tier):
             tags.append("mut-" + k)
         r = rng.random()
         o = "m" if r < 0.5 else "v" if r < 0.8 else "l" if r < 0.92 else "mO" if r < 0.97 else "vO"
+        # a mutation that multiplies the song (a line or token repeated 20-30 times) makes the optimiser's
+        # legitimate cost approach the CPU limit (84 s for midnight.mml with one melody line x30): no -O there
+        if "O" in o and len(s) > len(s0) + 1500:
+            o = o.replace("O", "")
         cmd = "tool" if rng.random() < 0.04 else "total"
         yield Case("%s %s %s%s" % (cmd, o, hx(s), PCM_SIDE), ("song",) + tuple(sorted(set(tags))) + (("tool",) if cmd == "tool" else ()), "tool" if cmd == "tool" else "mutated-song")
 
